@@ -201,6 +201,22 @@ func EventType(event any) string {
 	return reflect.TypeOf(event).String()
 }
 
+// typeNameOf returns the name EventType reports for events of type T, so that
+// APIs selecting stored events by Go type agree with the persisted type name.
+func typeNameOf[T any]() string {
+	t := reflect.TypeOf((*T)(nil)).Elem()
+	var zero T
+	var v any = zero
+	if t.Kind() == reflect.Pointer {
+		// a nil pointer would implement TypeNamer too, but EventTypeName may dereference it
+		v = reflect.New(t.Elem()).Interface()
+	}
+	if namer, ok := v.(TypeNamer); ok {
+		return namer.EventTypeName()
+	}
+	return t.String()
+}
+
 // Observability is an optional interface for metrics and tracing.
 // Implementations can track event publishing, handler execution, and errors.
 //
